@@ -246,6 +246,18 @@ def _corpus():
                 self.comb += self.o.eq(acc)
         d = T(); return d, {d.i, d.o}
     out.append(("six-clock-domains", domains))
+    def clkname():
+        """a port literally called sys_clk (named first) beside a sys domain whose clock is an internal net: the domain clock gets another identifier, and its registers are clocked by THAT one"""
+        class T(Module):
+            def __init__(self):
+                self.pad = Signal(name_override="sys_clk"); self.i = Signal(4); self.o = Signal(4)
+                self.clock_domains.cd_sys = ClockDomain("sys", reset_less=True)
+                div = Signal(2); self.clock_domains.cd_pad = ClockDomain("pad", reset_less=True)
+                self.comb += [self.cd_pad.clk.eq(self.pad), self.cd_sys.clk.eq(div[1])]
+                self.sync.pad += div.eq(div + 1)
+                self.sync.sys += self.o.eq(self.i + 1)
+        d = T(); return d, {d.pad, d.i, d.o}
+    out.append(("port-named-like-a-domain-clock", clkname))
     return out
 
 def _convert_twice(d, ios, name):
@@ -259,7 +271,12 @@ def _convert_twice(d, ios, name):
         try: f.clock_domains[cdn]
         except KeyError:
             cd = ClockDomain(cdn); f.clock_domains.append(cd); ios |= {cd.clk, cd.rst}
-    return convert(copy_fragment(f), ios=set(ios), name=name), convert(copy_fragment(f), ios=set(ios), name=name)
+    at = getattr(d, "_c02_attr_translate", None); kw = dict(attr_translate=at) if at is not None else {}
+    r1 = convert(copy_fragment(f), ios=set(ios), name=name, **kw); r2 = convert(copy_fragment(f), ios=set(ios), name=name, **kw)
+    for r_ in (r1, r2):
+        try: r_._c02_clocks = {cd.name: r_.ns.get_name(cd.clk) for cd in f.clock_domains if f.sync.get(cd.name)}
+        except Exception: r_._c02_clocks = None
+    return r1, r2
 
 def _convert(d, ios, name):
     """real convert(); a 'sys' clock domain is supplied as the platform/builder would (clk/rst become ports)"""
@@ -271,7 +288,10 @@ def _convert(d, ios, name):
         except KeyError:
             cd = ClockDomain(cdn); f.clock_domains.append(cd); ios |= {cd.clk, cd.rst}
     at = getattr(d, "_c02_attr_translate", None)
-    return convert(f, ios=ios, name=name, attr_translate=at) if at is not None else convert(f, ios=ios, name=name)
+    r = convert(f, ios=ios, name=name, attr_translate=at) if at is not None else convert(f, ios=ios, name=name)
+    try: r._c02_clocks = {cd.name: r.ns.get_name(cd.clk) for cd in f.clock_domains if f.sync.get(cd.name)}
+    except Exception: r._c02_clocks = None
+    return r
 
 DECL = re.compile(r"^\s*(?:input|output|inout)?\s*(?:wire|reg)\s*(?:signed\s*)?(?:\[[^\]]*\]\s*)?([A-Za-z_][A-Za-z0-9_$]*)\s*(?:\[[^\]]*\]\s*)?(?:=|;|,|$)", re.M)
 def _decls(text):
@@ -317,6 +337,11 @@ def c_corpus():
                            files=len(rm), info=f"{badf[:3]}" if badf else ""))
         out.append(res(f"ens.namespace-reserves-all-keywords[{name}]", "ensures", PROVED if not unres and not bad_kw else VIOLATED, 0, "executed on the namespace built by the real convert(); exhaustive over the keyword list",
                        keywords=len(rk), info=f"keywords a later request may receive verbatim: {(unres or bad_kw)[:6]}" if unres or bad_kw else ""))
+        # every always block is clocked by the identifier the namespace gave to its domain's clock signal (two signals never share an identifier:
+        # a clock referred to by another name than its own is another signal's name)
+        clk_used = sorted(set(re.findall(r"always @\(posedge ([A-Za-z_][A-Za-z0-9_$]*)\)", r.main_source))); clk_want = sorted(set((getattr(r, "_c02_clocks", None) or {}).values()))
+        if getattr(r, "_c02_clocks", None) is not None:
+            out.append(res(f"ens.always-blocks-use-the-names-of-their-domain-clocks[{name}]", "ensures", PROVED if clk_used == clk_want else VIOLATED, 0, "scan of the real convert() output", info="" if clk_used == clk_want else f"sensitivity lists name {clk_used}, the namespace names the domain clocks {clk_want}"))
         out.append(res(f"ens.decl-unique-legal[{name}]", "ensures", PROVED if names and not dup and not resv else (VACUOUS if not names else VIOLATED), 0, "declaration scan of the real convert() output", decls=len(names), info=f"dup={dup} reserved={resv}" if dup or resv else ""))
     return dict(results=out, functions=["litex.gen.fhdl.verilog.convert", "litex.gen.fhdl.namer.build_signal_namespace", "litex.gen.fhdl.namer._build_signal_name_dict"],
                 samples=[dict(program=n) for n, _ in _corpus()[:3]])
